@@ -20,7 +20,7 @@ LOOKALIKE = ["Select2", "count", "ResultParquet", "Zip", "select", "Wheres"]
 
 RULE = (
     "Typed grammar (int / bool / seq / seq-of-seq / result) rendered as source text, every operator drawn in method "
-    "form or function form independently at every depth (sources, lambda bodies, arguments, callee expressions, directly as the seed argument of Aggregate), with look-alike "
+    "form or function form independently at every depth (sources, lambda bodies, arguments, callee expressions, directly as the seed argument of Aggregate, inside receivers that are an index / a conditional / an attribute of a holder object), with look-alike "
     "non-operator methods (Select2, count, ResultParquet, Zip, select, Wheres) and non-call attribute references "
     "(x.Select as a value); in a fifth of the cases the caller passes its own list of known operator names (any subset, also the empty one). Non-trivial = >=2 method-form operator calls at different depths AND >=1 look-alike or "
     "attribute reference. Distinct by source text + data."
@@ -32,7 +32,7 @@ ASSUMPTIONS = [
     "Value equality is checked on the LINQ subset with python sequences; CPython is the evaluator.",
 ]
 BUDGET = {"quick": (4, 1200), "thorough": (16, 10000)}
-EXHAUSTIVE_NOTE = "12 operator names + 6 look-alikes x 16 syntactic positions (incl. keyword-argument values, dict values, tuple/list elements, the callee of a call, directly as a positional argument of a method-form / function-form operator call) x method/function form, fully enumerated"
+EXHAUSTIVE_NOTE = "12 operator names + 6 look-alikes x 19 syntactic positions (incl. keyword-argument values, dict values, tuple/list elements, the callee of a call, directly as a positional argument of a method-form / function-form operator call) x method/function form, fully enumerated"
 
 
 class SeqX(pyeval.Seq):
@@ -74,6 +74,11 @@ class SeqX(pyeval.Seq):
         return pyeval.PRELUDE["ResultPandasDF"](self, *a)
 
 
+class _Box:
+    def __init__(self, seq):
+        self.seq = seq
+
+
 def _x(v):
     if isinstance(v, list) and not isinstance(v, SeqX):
         return SeqX([_x(i) for i in v])
@@ -94,6 +99,7 @@ def _env(data):
         keep=lambda f, v: v,
         kw=lambda v, w=0: v,
         ident=lambda f: f,
+        box=lambda s: _Box(_x(s)),
     )
     return env
 
@@ -134,6 +140,14 @@ def _expr(draw, ty, depth, ivars, svars):
             return f"({draw(_expr('S', d, ivars, svars))}).{la}(lambda {v}: {draw(_expr('I', d, ivars + [v], svars))})"
         if k == 8 and draw(st.booleans()):
             return f"kw(w={draw(_expr('I', d, ivars, svars))}, v={draw(_expr('S', d, ivars, svars))})"
+        if k == 8:
+            # a sequence reached through a compound expression that is NOT a call: index, conditional, attribute of a holder object
+            z = draw(st.integers(0, 2))
+            if z == 0:
+                return f"({draw(_expr('SS', d, ivars, svars))})[0]"
+            if z == 1:
+                return f"({draw(_expr('S', d, ivars, svars))} if {draw(_expr('B', d, ivars, svars))} else {draw(_expr('S', d, ivars, svars))})"
+            return f"box({draw(_expr('S', d, ivars, svars))}).seq"
         la = draw(st.sampled_from(["Zip()", f"Wheres(lambda {v}: {v} > 1)"]))
         return f"({draw(_expr('S', d, ivars, svars))}).{la}"
     if ty == "B":
@@ -244,6 +258,9 @@ def exhaustive(tier):
         "(lambda z: {X})(1)",
         "[lambda z: {X}][0](1)",
         "ident(lambda z: {X})(1)",
+        "keep(0, (ss0.Select(lambda q: keep({X}, q)))[0].Count())",
+        "((s0).Where(lambda q: keep({X}, True)) if n0 > 0 else s1).Count()",
+        "box((s0).Select(lambda q: keep({X}, q))).seq.Count()",
         "(s0).Aggregate({X}, lambda a, v: a + v)",
         "Aggregate(s0, {X}, lambda a, v: a + v)",
         "(s0).Select(lambda v: v).Aggregate({X}, lambda a, v: a + v)",
